@@ -187,6 +187,10 @@ class MacroProgram(ElementProgram):
 
         for (prefix, attr), encoded in tuple(ns.items()):
             if prefix == TAL or prefix == METAL:
+                if prefix == TAL and attr in tal.MULTIPART:
+                    # split first (as written: ``;`` ends ``&amp;``),
+                    # the parts are decoded by the statement parser
+                    continue
                 ns[prefix, attr] = decode_htmlentities(encoded)
 
         # Validate namespace attributes
